@@ -10,12 +10,17 @@
      wf_section     = no name is the dash token, each child has ONE declared parent, object is nobody's child;
      acyclic/cyclic = no / some type is its own proper ancestor by declared pairs;  forest = wf + acyclic.
    Model (Model/Types.v): parse_types (DomainParser.parse_types), walk / is_sub_type (PDDLType.is_sub_type).
-   All theorems are unbounded (any number of types, any depth); none is _partial or _refuted: on the current
-   tree (after the repairs D03 and D14) the code satisfies the property on every forest. *)
+   All theorems are unbounded (any number of types, any depth).  On the current tree (after the repairs D03, D14,
+   D19c) the code satisfies the property on every forest at every site EXCEPT one: the object table that the
+   library's own pipeline hands to an Operator holds the problem's objects only, so a quantifier never ranges
+   over a domain CONSTANT although its type is a subtype of the quantified type (finding D30):
+   C06_quantifier_range_statement (full statement, false of the code), C06_quantifier_range_partial,
+   C06_quantifier_range_refuted. *)
 From Coq Require Import List String Bool Relations Permutation PrimFloat.
 From Verif Require Import Base.Result Base.Str Base.Sexp Base.PyDict Model.Types Model.Domain Model.Exec
   Model.TypeSites Spec.Pddl Spec.Types
-  Proofs.C06_Walk Proofs.C06_Parse Proofs.C06_Main Proofs.C06_Sites Proofs.C06_Oracle Proofs.C06_Examples.
+  Proofs.C06_Walk Proofs.C06_Parse Proofs.C06_Main Proofs.C06_Sites Proofs.C06_Oracle Proofs.C06_Examples
+  Proofs.C06_Constants Proofs.C06_Extra.
 Import ListNotations.
 Open Scope string_scope.
 Open Scope list_scope.
@@ -28,6 +33,16 @@ Theorem C06_closure : forall (gs : list group) (tr : list tname) (T : typetable)
   parse_types (render gs tr) = Ok T ->
   forall x y, is_sub_type T x y = true <-> subtype (decls gs tr) x y.
 Proof. exact closure_lemma. Qed.
+
+(* C06_forest: the same in one piece, from the spec-level hypothesis alone - every forest is accepted, the answer
+   of is_sub_type is the closure for all x y, the walk never runs out of fuel, the keys are the section's names *)
+Theorem C06_forest : forall gs tr,
+  plain_section gs tr -> forest (decls gs tr) ->
+  exists T, parse_types (render gs tr) = Ok T /\
+            (forall x y, is_sub_type T x y = true <-> subtype (decls gs tr) x y) /\
+            (forall x y, exists b, walk (S (S (List.length T))) T x y = Ok b) /\
+            (forall n, In n (type_names T) <-> is_type_name (decls gs tr) n).
+Proof. exact forest_lemma. Qed.
 
 (* every forest is accepted ... *)
 Theorem C06_forest_accepted : forall gs tr,
@@ -93,6 +108,12 @@ Proof. exact trailing_section. Qed.
 Theorem C06_subtypeb_is_sub_type : forall (T : typetable) x y, subtypeb T x y = is_sub_type T x y.
 Proof. exact subtypeb_is_sub_type_lemma. Qed.
 
+(* ... and the spec core's test evaluated directly on a forest's declarations is the closure (this is the oracle
+   Corr/Core.v uses for C01-C03: Spec.Pddl.subtypeb on the declared rows) *)
+Theorem C06_subtypeb_is_closure : forall (ds : list decl) x y,
+  forest ds -> (subtypeb ds x y = true <-> subtype ds x y).
+Proof. exact subtypeb_forest_lemma. Qed.
+
 (* forall condition (GroundedPrecondition._validate_universal_precondition): the result is the fold of the body
    over exactly the objects o with is_sub_type (type o) (quantified type), in the order of the object table *)
 Theorem C06_site_forall_condition : forall (dom : mdomain) (eps : float) (os : objects) s pm v ty body,
@@ -105,7 +126,7 @@ Proof. exact forall_condition_range_lemma. Qed.
 Theorem C06_site_forall_effect : forall (dom : mdomain) (eps : float) ga (os : objects) uorder prev cur,
   apply_universal dom eps ga (Some os) uorder prev cur =
   foldM (fun cur1 o =>
-           foldM (univ_effect_step dom eps ga prev o)
+           foldM (univ_effect_step dom eps ga os prev o)
                  (filter (fun ue => in_range dom (ue_ty ue) o) (reorder (ma_univ (ga_action ga)) uorder)) cur1)
         os cur.
 Proof. exact forall_effect_range_lemma. Qed.
@@ -124,10 +145,19 @@ Theorem C06_site_problem_fact : forall (dom : mdomain) objs p args,
                  forall t r, In (t, r) (combine tys (dvalues sg)) -> is_sub_type (d_types dom) t r = true.
 Proof. exact problem_fact_lemma. Qed.
 
-Theorem C06_site_problem_fluent : forall (dom : mdomain) objs f v r a t,
+(* initial fluents (ProblemParser.parse_grounded_numeric_fluent, after the repair D19c): the same, positionally *)
+Theorem C06_site_problem_fluent : forall (dom : mdomain) objs f args,
+  problem_fluent dom objs f args = Ok tt <->
+  exists sg tys, dget (d_funcs dom) f = Some sg /\ List.length args = List.length sg /\
+                 mapM (type_of_name dom objs) args = Ok tys /\
+                 forall t r, In (t, r) (combine tys (dvalues sg)) -> is_sub_type (d_types dom) t r = true.
+Proof. exact problem_fluent_lemma. Qed.
+
+(* trajectory fluents (TrajectoryParser.parse_grounded_numeric_fluent with a problem), unary *)
+Theorem C06_site_trajectory_fluent : forall (dom : mdomain) objs f v r a t,
   dget (d_funcs dom) f = Some [(v, r)] -> type_of_name dom objs a = Ok t ->
-  (problem_fluent dom objs f [a] = Ok tt <-> is_sub_type (d_types dom) t r = true).
-Proof. exact problem_fluent_unary_lemma. Qed.
+  (trajectory_fluent dom objs f [a] = Ok tt <-> is_sub_type (d_types dom) t r = true).
+Proof. exact trajectory_fluent_unary_lemma. Qed.
 
 (* ... and on a domain whose types come from a well-formed section, "passes is_sub_type" means "is a subtype":
    an object is in the range of a quantifier over ty exactly when its declared type is a subtype of ty *)
@@ -137,11 +167,41 @@ Theorem C06_sites_select_subtypes : forall gs tr (dom : mdomain) (os : objects) 
    exists t, In (o, t) os /\ subtype (decls gs tr) t ty).
 Proof. exact sites_select_subtypes_lemma. Qed.
 
+(* ---------------------------------------------------------------------------------------------- constants (D30) *)
+(* full statement: the objects a quantifier ranges over (the table the pipeline gives to Operator) are the
+   problem's objects AND the domain's constants.  FALSE of the code (Model.TypeSites.pipeline_objects). *)
+Definition C06_quantifier_range_statement : Prop :=
+  forall (dom : mdomain) (objs : pydict string) n t,
+    dget (dupdate (d_consts dom) objs) n = Some t -> dget (pipeline_objects dom objs) n = Some t.
+
+(* what does hold: every problem object is in the table with its declared type *)
+Theorem C06_quantifier_range_partial : forall (dom : mdomain) (objs : pydict string) o t,
+  dget objs o = Some t -> dget (pipeline_objects dom objs) o = Some t.
+Proof. exact pipeline_objects_partial_lemma. Qed.
+
+(* refutation: a domain with (:constants k - t), a forall over t whose body fails for k only: PDDL says false
+   (Spec.Pddl.holds over constants + objects), the pipeline's evaluation says true.  Replayed on the
+   implementation by the check (cases of kind forest-constants / the witness in findings.d/C06.json). *)
+Theorem C06_quantifier_range_refuted :
+  exists (dom : mdomain) (objs : objects) (s : state) (c : mcond) (f : form),
+    denote_cond c = Some f /\
+    (exists k kt, dget (d_consts dom) k = Some kt /\ is_sub_type (d_types dom) kt "t" = true) /\
+    eval_lifted_cond dom 0%float (Some (pipeline_objects dom objs)) s [] c = Ok true /\
+    holds 0%float (d_types dom) (d_consts dom ++ objs) [] s f = false.
+Proof. exact constants_refuted_lemma. Qed.
+
 (* ---------------------------------------------------------------------------------------------- oracle *)
 (* the executable closure the correspondence check uses as its oracle IS the spec relation, for every
    declaration list (forest or not) *)
 Theorem C06_oracle_is_closure : forall ds x y, closure_b ds x y = true <-> subtype ds x y.
 Proof. exact closure_b_lemma. Qed.
+
+(* the executable tests that tell the check what to expect of a generated section are the spec's predicates *)
+Theorem C06_oracle_forest : forall ds, forest_b ds = true <-> forest ds.
+Proof. exact forest_b_lemma. Qed.
+
+Theorem C06_oracle_cyclic : forall ds, cyclic_b ds = true <-> cyclic ds.
+Proof. exact cyclic_b_lemma. Qed.
 
 (* ---------------------------------------------------------------------------------------------- examples *)
 (* the hypotheses are satisfiable by a non-trivial forest: children declared before parents, depth 4, a parent
@@ -161,6 +221,7 @@ Example C06_example_cyclic : wf_section ex_cyclic [] /\ cyclic (decls ex_cyclic 
 Proof. exact (conj ex_cyclic_wf ex_cyclic_cyclic). Qed.
 
 Print Assumptions C06_closure.
+Print Assumptions C06_forest.
 Print Assumptions C06_forest_accepted.
 Print Assumptions C06_cyclic_rejected.
 Print Assumptions C06_fuel_sufficient.
@@ -176,5 +237,11 @@ Print Assumptions C06_site_forall_effect.
 Print Assumptions C06_site_spec_range.
 Print Assumptions C06_site_problem_fact.
 Print Assumptions C06_site_problem_fluent.
+Print Assumptions C06_site_trajectory_fluent.
 Print Assumptions C06_sites_select_subtypes.
+Print Assumptions C06_quantifier_range_partial.
+Print Assumptions C06_quantifier_range_refuted.
+Print Assumptions C06_subtypeb_is_closure.
 Print Assumptions C06_oracle_is_closure.
+Print Assumptions C06_oracle_forest.
+Print Assumptions C06_oracle_cyclic.
